@@ -37,7 +37,8 @@ CLAIMED["C13"] = dict(
     technique="deterministic simulation with crash-point enumeration: every cut offset of generated files on a simulated disk, prefix oracle against the written model",
     text="Crash-point enumeration: files written by the real noodles writers from harness-generated models are cut at every byte "
          "offset (all files <= 6000 bytes) or at every offset within 40 bytes of each structural boundary plus a seeded sample "
-         "(larger files, many BGZF members); a fresh reader then reads each prefix through every reading-protocol variant. The "
+         "(larger files, many BGZF members); a fresh reader then reads each prefix through every reading-protocol variant — the sync reader, its "
+         "async twin where one exists, the noodles-util facade; a quarter of the cases through short reads. The "
          "oracle is the statement itself: delivered items are an unchanged prefix of what was written, no panic, raw BAM/BCF "
          "record streams / CRAM containers cut mid-unit end in Err. Complete for the one-fault space of each generated file; the "
          "files themselves are sampled.",
@@ -62,7 +63,9 @@ CLAIMED["C14"] = dict(
          "counts the sink calls N, then every call index fails once (all N <= 400; boundary-biased + seeded subset above), with "
          "rotating error kinds, sticky and transient, plus Ok(0), ~35 byte budgets (disk full mid-write) and short-write / "
          "Interrupted patterns without hard fault. Oracle: a consumed fault must surface as Err from the protocol; without fault "
-         "the bytes equal the plain run, which decodes to exactly the model; index fs::write on /dev/full must fail. Complete for "
+         "the bytes equal the plain run, which decodes to exactly the model; index fs::write on /dev/full and on a real file under a file-size quota (RLIMIT_FSIZE) running out at "
+         "the start, the middle and the last 29 bytes must fail; SAM/BAM kinds are also written through the "
+         "noodles-util facade writer. Complete for "
          "the one-fault space of each generated model; models are sampled. The multithreaded BGZF writer is driven under "
          "thread-sim (C03 engine).",
     note="Trusted: the harness protocol per kind (DESIGN.md §12) is what a careful user does; no calls after the first Err. /dev/full is the real kernel device.",
@@ -76,7 +79,8 @@ CLAIMED["C03"] = dict(
          "(crossbeam-channel and rayon are substituted at the Cargo level by shims with the same semantics). Writer output must "
          "be byte-identical to bgzf::io::Writer for the same history; reader bytes/positions must equal the flat model after "
          "every operation incl. seeks; deadlock and livelock are detected exactly; injected sink failures, source errors and "
-         "corrupt blocks must surface from a later call. Seeded search over schedules (20 000 quick / 400 000 thorough), not proof.",
+         "corrupt blocks must surface from a later call, after which the reader stays in use (recovery seeks); a third "
+         "of the runs add short/interrupted I/O on the sink or source. Seeded search over schedules (20 000 quick / 400 000 thorough), not proof.",
     note="Trusted: shim fidelity (bounded channels, disconnect semantics, pool as 'any idle worker picks any queued task'); hooks H1 add only scheduling points. Each run is replayable from its recorded decision list.",
     engine="thread-sim")
 
@@ -85,7 +89,8 @@ CLAIMED["C15"] = dict(
     technique="deterministic simulation with stored-data fault enumeration: every single-byte substitution x value set and every 4-byte field overwrite x special values at raw / re-sealed-payload layers; process-contained panic, abort, hang and allocation oracles",
     text="A valid generated file of every kind sits on the simulated disk; one stored-data fault is applied per run: byte "
          "substitution at every offset (small files; boundary-biased + seeded sample above) x 6 values, 4-byte LE overwrite at "
-         "the same offsets x {0,1,0x7fffffff,0x80000000,0xffffffff}, truncations; layers: raw bytes, BGZF payload re-wrapped "
+         "the same offsets x {0,1,0x7fffffff,0x80000000,0xffffffff}, truncations; for text content also 15 structural "
+         "characters, deletion, insertion of tab/LF/CR, a multibyte character and 7 extreme numbers per digit run; layers: raw bytes, BGZF payload re-wrapped "
          "with valid CRC/ISIZE, CRAM with block/container CRCs re-sealed and every block's method byte set to every codec. The "
          "reader reads to EOF/error, every Ok record is rendered (all accessors), corrupted indexes that load are used for "
          "queries on the intact data. Oracle: Ok/Err only; panics caught, aborts/stack overflows/hangs attributed through "
@@ -98,7 +103,8 @@ CLAIMED["C16"] = dict(
     category="exploration", design="DESIGN.md §8 C16",
     technique="deterministic simulation of the async twins on a driverless single-threaded tokio runtime with a scripted poll adversary (Pending, partial transfers, blocking-job completion delays); differential oracle vs the sync twin and the flat model",
     text="Every async reader, writer and query twin runs inside async-sim: the underlying AsyncRead/AsyncWrite/AsyncSeek objects "
-         "return Pending or transfer partially as the plan says, the former spawn_blocking inflate/deflate jobs are gated tasks "
+         "return Pending or transfer partially as the plan says (sinks lenient, strict = BrokenPipe after shutdown, or "
+         "buffered = bytes reach the destination only on flush/shutdown), the former spawn_blocking inflate/deflate jobs are gated tasks "
          "whose completion order the plan decides, worker counts 1..8. Oracles: async BGZF writer output passes the independent "
          "walker and decodes like the sync writer's; async BGZF reader histories (incl. seeks) equal the flat model; async "
          "readers of 19 kinds yield the sync observation (headers, records, positions, errors); async writers decode like the "
